@@ -31,6 +31,11 @@ func init() {
 			{Name: "crlf", TShards: 2, Run: c06CRLF},
 			{Name: "files", TShards: 4, Run: c06Files},
 			{Name: "huge", QShards: 6, TShards: 16, Run: c06Huge},
+			{Name: "prefixes", Run: func(c *Ctx) {
+				for i, f := range c06Formats {
+					prefixUnit(f, true, int64(i)*1000)(c)
+				}
+			}},
 		},
 	})
 }
